@@ -12,7 +12,7 @@ print(" ".join("OtelVerif.Props.%s drv_%s" % (p, p.lower()) for p in sorted(c)))
 PY
 )
 # regenerate every Gen/*.lean from /repo first: the build must not depend on a committed copy
-python3 tools/regen.py
+flock lean/.verif.lock python3 tools/regen.py
 cd lean
 # shellcheck disable=SC2086
 flock .verif.lock lake build OtelVerif.Common.Line OtelVerif.Common.Audit $targets
